@@ -60,6 +60,7 @@ type StringV struct {
 	Arr *Term
 	Len *Term
 	Max int
+	U   *Term // optional: "contains a character of the unsafe class" when the content is not tracked (formatted / escaped strings)
 }
 
 type FuncV struct {
